@@ -308,7 +308,9 @@ def eigen(X, P, NSIG=None, method='music', threshold=None, NFFT=default_NFFT,
 
     #return PSD, S
 
-    newpsd = np.append(PSD[nby2:0:-1], PSD[nby2*2-1:nby2-1:-1])
+    # the right singular vectors are conjugated, so bin j holds frequency -j:
+    # rearrange into the centered layout (frequencies -NFFT/2 ... NFFT/2)
+    newpsd = np.append(PSD[nby2::-1], PSD[NFFT-1:nby2:-1])
     return newpsd, S
 
 
